@@ -47,13 +47,20 @@ class Ctx:
                                    "not a verdict; fix the specification or replay it):\n%s" % (module, cfg, tail))
         return r
 
-    def validate(self, files, module="ObsTrace", cfg="ObsTrace.cfg", env=None):
+    def validate(self, files, module="ObsTrace", cfg="ObsTrace.cfg", env=None, claim_all=None):
+        """claim_all="Cxx_Tag": every monitor violated in these traces counts for this property (renamed
+        Cxx_Tag_<monitor>) -- used where the scenarios themselves are the property's subject (wrap bases)."""
         viols, st = L.validate_traces(self.scr, files, module=module, cfg=cfg, env=env)
         for k in ("states", "transitions", "scenarios", "events", "files"):
             self.trace_stats[k] += st[k]
         mine = self.monitors()
         for v in viols:
             mon = v.get("mon", "")
+            if claim_all and not mon.startswith("DRIFT_") and not any(mon.startswith(p) for p in mine):
+                if L.match_known(v, L.load_known(), mon[:3]):
+                    self.other[mon] = self.other.get(mon, 0) + 1   # a known finding of its own property
+                    continue
+                v["mon"] = mon = claim_all + "_" + mon
             if any(mon.startswith(p) for p in mine):
                 self.viols.append(v)
             else:
@@ -346,9 +353,12 @@ def c16(ctx):
     reasm_component(ctx, "C16", replay=not ctx.quick)
     files = directed_traces(ctx, "wrapdiff", 8 if ctx.quick else 16, {"VF_N": 3 if ctx.quick else 40, "VF_NBASES": 4 if ctx.quick else 10})
     files += xfer_traces(ctx, ["wrap"], 48, 2000)
-    ctx.validate(files)
-    ctx.notes.append("the shift-invariance comparison of normalised projections is computed by the harness and enters the trace as a `diff` event; "
-                     "all 2^32 pairs of 16-bit values are NOT enumerated (laws for M<=64 + boundary grid + random sample)")
+    files += directed_traces(ctx, "prdir", 8, {"VF_FULL": "0" if ctx.quick else "1", "VF_ONLY": "wrap"})
+    # every property monitor must hold in runs whose sequence numbers cross their wraps
+    ctx.validate(files, claim_all="C16_AtWrap")
+    ctx.notes.append("wrap invisibility is decided by validating runs at wrap bases (TSN) and with SSN/MID counters preset below their wraps, "
+                     "normalised, against the base-free specifications; a trace-equality differential between bases was removed (false alarms from "
+                     "legitimate scheduling differences). All 2^32 pairs of 16-bit values are NOT enumerated (laws for M<=64 + boundary grid + sample)")
 
 
 @check("C17", ["C17_"])
